@@ -90,6 +90,27 @@ fn check_server(rep: &mut Report, cx: &SeqCtx, srv: &Srv, out: &ConnOut) -> Vec<
             rep.inconclusive(format!("{name}: no end of stream within {:?} after closing (sequence {})", cli::EOS_T, cx.seq));
         }
     }
+    // Bounded progress: the peer wrote every request completely and kept the connection open, yet the
+    // expected responses only came out once it half-closed / sent Close. A client that waits for a response
+    // before sending more would hang forever. Inline paths only (off-reader completion is not ordered); a
+    // machine stall makes it inconclusive.
+    {
+        let expected = reqs.iter().filter(|r| r.notify == 0).count();
+        let inline_srv = !name.contains("offreader");
+        if out.waited_out && inline_srv && out.frames.len() >= expected && expected > 0 {
+            if cx.stalled {
+                rep.inconclusive(format!("{name}: responses late but the machine stalled (sequence {})", cx.seq));
+            } else {
+                cx.viol(
+                    rep,
+                    format!("C03:response-withheld-until-close:{name}"),
+                    format!("{name}, sequence {}: all {} requests were written and the connection stayed open for {:?}, but the {} expected responses only arrived after the peer half-closed", cx.seq, reqs.len(), cli::WAIT_T, expected),
+                    &name,
+                    None,
+                );
+            }
+        }
+    }
     if let Some(g) = &out.garbage {
         cx.viol(rep, format!("C03:response-stream-not-frames:{name}"), format!("{name}, sequence {}: {g}", cx.seq), &name, None);
     }
